@@ -8,6 +8,7 @@ import (
 	"strings"
 	"sync"
 	"sync/atomic"
+	"time"
 )
 
 // Instance is one live system under exploration together with its reference model.
@@ -110,6 +111,22 @@ func (b *BFS) Run() {
 		b.MaxStates = 6000000 // memory guard: frontier paths + visited set stay below a few GB
 	}
 	seen := sync.Map{}
+	// native resources of the code under test (wasmtime code mappings) are released by
+	// finalizers only; the Go heap stays small, so the collector is run explicitly after
+	// every few hundred closed instances (otherwise a long exploration exhausts the
+	// process's memory mappings)
+	if userClose := b.Close; userClose != nil {
+		var closed int64
+		var drain sync.Mutex
+		b.Close = func(in Instance) {
+			userClose(in)
+			if atomic.AddInt64(&closed, 1)%64 == 0 {
+				drain.Lock()
+				DrainFinalizers()
+				drain.Unlock()
+			}
+		}
+	}
 	var root Instance
 	b.guard(nil, func() { root = b.Init() })
 	if root == nil {
@@ -246,4 +263,23 @@ func (b *BFS) Run() {
 		c.Cap(b.Name + ": stopped before depth bound")
 	}
 	fmt.Printf("[%s] states=%d transitions=%d dups=%d pruned=%d depth=%d/%d\n", b.Name, b.States, b.Transitions, b.Dups, b.Pruned, b.DepthDone, b.MaxDepth)
+}
+
+// DrainFinalizers runs the collector and waits until the finalizers queued by it have
+// run (finalizers run one after the other on a single goroutine: a sentinel queued last
+// signals that the earlier ones are done). Two rounds, because releasing one native
+// object (a wasmtime store) makes the next one (its engine) collectable.
+func DrainFinalizers() {
+	for round := 0; round < 2; round++ {
+		done := make(chan struct{})
+		s := new([16]byte)
+		runtime.SetFinalizer(s, func(*[16]byte) { close(done) })
+		s = nil
+		runtime.GC()
+		select {
+		case <-done:
+		case <-time.After(5 * time.Second):
+			return
+		}
+	}
 }
